@@ -829,3 +829,238 @@ func noPackageLevelContext(c *Ctx, rule string, rels ...string) {
 	}
 	c.ok(rule, strings.Join(rels, ",")+"|scanned", "", fmt.Sprintf("%d package-level contexts in %v", n, rels))
 }
+
+// causesAreWrapped: an error that is passed on inside a new error is WRAPPED — fmt.Errorf uses %w for every argument
+// that is an error. With %v the text is kept and the chain is cut: errors.Is / errors.As on what Render returns no
+// longer find the cause (a context cancellation, a json.MarshalerError, the caller's own sentinel).
+func causesAreWrapped(c *Ctx, rule string, rels ...string) {
+	n := 0
+	for _, rel := range rels {
+		p := c.pkg(rel)
+		if p == nil {
+			continue
+		}
+		info := p.TypesInfo
+		for _, fd := range allFuncDecls(p) {
+			if fd.Body == nil {
+				continue
+			}
+			ord := 0
+			ast.Inspect(fd.Body, func(x ast.Node) bool {
+				call, ok := x.(*ast.CallExpr)
+				if !ok || len(call.Args) < 2 {
+					return true
+				}
+				if fn := calleeOf(info, call); fn == nil || fullName(fn) != "fmt.Errorf" {
+					return true
+				}
+				format, isConst := constString(info, call.Args[0])
+				if !isConst {
+					return true
+				}
+				nerr := 0
+				for _, a := range call.Args[1:] {
+					if t := info.TypeOf(a); t != nil && isErrorType(t) {
+						nerr++
+					}
+				}
+				if nerr == 0 {
+					return true
+				}
+				ord++
+				n++
+				nw := strings.Count(format, "%w")
+				c.check(nw >= nerr, rule, fmt.Sprintf("%s|fmt.Errorf#%d|wraps-its-cause", funcKey(p, fd), ord), c.pos(call.Pos()), fmt.Sprintf("%d error argument(s), %d %%w", nerr, nw),
+					fmt.Sprintf("%s builds an error with fmt.Errorf(%q, …) from %d error value(s) but only %d %%w verb(s): the cause is formatted into the text and cut out of the chain, so errors.Is / errors.As on the error Render returns no longer find it", fd.Name.Name, format, nerr, nw))
+				return true
+			})
+		}
+	}
+	c.count("errorf_with_error_arguments", n)
+	c.ok(rule, strings.Join(rels, ",")+"|scanned", "", fmt.Sprintf("%d fmt.Errorf calls with an error argument in %v", n, rels))
+}
+
+// noWritesFromDefers: fail-stop — once a write or a nested render has failed, nothing more is written, so what the
+// writer received stays a prefix of the document. A write to the render writer placed in a `defer` runs on every exit
+// of the function, the failing ones included (a closing tag after the body failed to encode).
+func noWritesFromDefers(c *Ctx, rule string, rels ...string) {
+	n := 0
+	for _, rel := range rels {
+		p := c.pkg(rel)
+		if p == nil {
+			continue
+		}
+		info := p.TypesInfo
+		for _, fd := range allFuncDecls(p) {
+			if fd.Body == nil {
+				continue
+			}
+			// the writer parameters of the function
+			writers := map[types.Object]bool{}
+			for _, prm := range paramObjs(info, fd) {
+				if prm != nil && prm.Type().String() == "io.Writer" {
+					writers[prm] = true
+				}
+			}
+			if len(writers) == 0 {
+				continue
+			}
+			ord := 0
+			ast.Inspect(fd.Body, func(x ast.Node) bool {
+				ds, ok := x.(*ast.DeferStmt)
+				if !ok {
+					return true
+				}
+				n++
+				ord++
+				bad := ""
+				ast.Inspect(ds.Call, func(m ast.Node) bool {
+					call, ok := m.(*ast.CallExpr)
+					if !ok {
+						return true
+					}
+					var dst ast.Expr
+					if se, ok := ast.Unparen(call.Fun).(*ast.SelectorExpr); ok && (se.Sel.Name == "Write" || se.Sel.Name == "WriteString") {
+						dst = se.X
+					}
+					if fn := calleeOf(info, call); fn != nil && len(call.Args) > 0 {
+						switch fullName(fn) {
+						case "io.WriteString", "fmt.Fprint", "fmt.Fprintf", "fmt.Fprintln":
+							dst = call.Args[0]
+						}
+					}
+					if id, ok := ast.Unparen(dst).(*ast.Ident); ok && dst != nil && writers[info.ObjectOf(id)] {
+						bad = types.ExprString(call.Fun) + " at " + c.pos(call.Pos())
+					}
+					return true
+				})
+				c.check(bad == "", rule, fmt.Sprintf("%s|defer#%d|writes-nothing", funcKey(p, fd), ord), c.pos(ds.Pos()), "the deferred call does not write to the render writer",
+					fmt.Sprintf("%s writes to its writer from a defer (%s): the write also happens after an earlier write, encode or nested render has failed, so the bytes the writer received are no longer a prefix of the document (a closing tag follows a body that was never written)", fd.Name.Name, bad))
+				return true
+			})
+		}
+	}
+	c.count("defers_in_functions_with_a_writer", n)
+	c.ok(rule, strings.Join(rels, ",")+"|scanned", "", fmt.Sprintf("%d defer statements in functions that take an io.Writer examined", n))
+}
+
+// freshBuffersAreEmpty: a buffer that output will be written to starts empty. bytes.NewBuffer(b) makes b the buffer's
+// CONTENT: given make([]byte, n) — n bytes long, where make([]byte, 0, n) was meant — the buffer starts with n zero
+// bytes, which are then sent in front of (or, from a pool, in front of someone else's) document.
+func freshBuffersAreEmpty(c *Ctx, rule string, rels ...string) {
+	n := 0
+	for _, rel := range rels {
+		p := c.pkg(rel)
+		if p == nil {
+			continue
+		}
+		info := p.TypesInfo
+		for _, fd := range allFuncDecls(p) {
+			if fd.Body == nil {
+				continue
+			}
+			ord := 0
+			ast.Inspect(fd.Body, func(x ast.Node) bool {
+				call, ok := x.(*ast.CallExpr)
+				if !ok || len(call.Args) != 1 {
+					return true
+				}
+				fn := calleeOf(info, call)
+				if fn == nil || fullName(fn) != "bytes.NewBuffer" {
+					return true
+				}
+				ord++
+				n++
+				arg := unfoldLocals(p, fd, call.Args[0])
+				bad := ""
+				if mk, ok := ast.Unparen(arg).(*ast.CallExpr); ok && types.ExprString(mk.Fun) == "make" && len(mk.Args) >= 2 {
+					if v, isConst := constInt(info, mk.Args[1]); !isConst || v != 0 {
+						bad = types.ExprString(mk)
+					}
+				}
+				c.check(bad == "", rule, fmt.Sprintf("%s|bytes.NewBuffer#%d|starts-empty", funcKey(p, fd), ord), c.pos(call.Pos()), "the buffer's initial content is not a zero-filled make",
+					fmt.Sprintf("%s creates a buffer with bytes.NewBuffer(%s): the slice is the buffer's initial CONTENT, so the buffer starts with that many zero bytes (make([]byte, 0, n) gives an empty buffer of that capacity) — they are written out in front of the next document rendered into it", fd.Name.Name, bad))
+				return true
+			})
+		}
+	}
+	c.count("bytes.NewBuffer_sites", n)
+	c.ok(rule, strings.Join(rels, ",")+"|scanned", "", fmt.Sprintf("%d bytes.NewBuffer calls in %v", n, rels))
+}
+
+// hashSumsAreOfWhatWasWritten: a hash.Hash digests what was Written to it; Sum(b) APPENDS the digest to b and digests
+// nothing of b. `sha256.New().Sum(data)` is therefore data followed by the digest of the empty input — as a key it
+// starts with the data's own first bytes, and two different bodies that begin alike get the same short hash (two
+// script templates of the same name collapse into one JavaScript function). Every call of a Sum method of a hash is
+// given nil (or an empty prefix), and the hash it is called on has been written to.
+func hashSumsAreOfWhatWasWritten(c *Ctx, rule string, rels ...string) {
+	n := 0
+	for _, rel := range rels {
+		p := c.pkg(rel)
+		if p == nil {
+			continue
+		}
+		info := p.TypesInfo
+		for _, fd := range allFuncDecls(p) {
+			if fd.Body == nil {
+				continue
+			}
+			ord := 0
+			ast.Inspect(fd.Body, func(x ast.Node) bool {
+				call, ok := x.(*ast.CallExpr)
+				if !ok || len(call.Args) != 1 {
+					return true
+				}
+				se, ok := ast.Unparen(call.Fun).(*ast.SelectorExpr)
+				if !ok || se.Sel.Name != "Sum" {
+					return true
+				}
+				fn := calleeOf(info, call)
+				if fn == nil {
+					return true
+				}
+				sig, _ := fn.Type().(*types.Signature)
+				if sig == nil || sig.Recv() == nil || sig.Params().Len() != 1 || sig.Params().At(0).Type().String() != "[]byte" || sig.Results().Len() != 1 || sig.Results().At(0).Type().String() != "[]byte" {
+					return true
+				}
+				// a hash: the receiver also has Write and BlockSize
+				rt := info.TypeOf(se.X)
+				ms := types.NewMethodSet(rt)
+				if ms.Lookup(nil, "BlockSize") == nil || ms.Lookup(nil, "Write") == nil {
+					return true
+				}
+				ord++
+				n++
+				arg := ast.Unparen(call.Args[0])
+				okArg := false
+				if id, ok := arg.(*ast.Ident); ok && id.Name == "nil" {
+					okArg = true
+				}
+				if sl, ok := arg.(*ast.SliceExpr); ok && sl.High != nil {
+					if v, isConst := constInt(info, sl.High); isConst && v == 0 {
+						okArg = true
+					}
+				}
+				// written to: not a freshly constructed hash
+				fresh := false
+				if rc, ok := ast.Unparen(se.X).(*ast.CallExpr); ok {
+					if cf := calleeOf(info, rc); cf != nil && strings.HasPrefix(cf.Name(), "New") {
+						fresh = true
+					}
+				}
+				why := ""
+				switch {
+				case !okArg:
+					why = fmt.Sprintf("Sum is given %s, which it does not digest but prepends to the digest", types.ExprString(arg))
+				case fresh:
+					why = "Sum is called on a hash that nothing was written to"
+				}
+				c.check(why == "", rule, fmt.Sprintf("%s|hash.Sum#%d|digests-what-was-written", funcKey(p, fd), ord), c.pos(call.Pos()), "Sum(nil) of a hash that was written to",
+					fmt.Sprintf("%s: %s — the result is the argument followed by the digest of the empty input, so the first bytes of the `hash` are the first bytes of the data: different contents that begin alike get the same key", fd.Name.Name, why))
+				return true
+			})
+		}
+	}
+	c.count("hash_sum_calls", n)
+	c.ok(rule, strings.Join(rels, ",")+"|scanned", "", fmt.Sprintf("%d calls of a hash's Sum in %v", n, rels))
+}
